@@ -1,7 +1,7 @@
 (* Every reply the line model emits decodes under the independent decoder Spec/AslReplySpec.v and
    names its request (part c04_as). *)
-From DS Require Import Base.Prelude Base.Bits Model.Utils Model.AslLine Spec.AslReplySpec
-  Proofs.UtilsProofs Proofs.AslFrameProofs Proofs.AslLineProofs.
+From DS Require Import Base.Prelude Base.Bits Model.Utils Model.AslLine Spec.AslReplySpec.
+From DS Require Import Proofs.UtilsProofs Proofs.AslFrameProofs Proofs.AslLineProofs.
 
 Lemma idx_in idx : 0 <= idx <= 31 -> In idx (map Z.of_nat (seq 0 32)).
 Proof.
@@ -328,3 +328,46 @@ Section ReplyProofs.
   Lemma line_ok_init min drv : Forall Inv drv -> line_ok (mkL min drv finit).
   Proof. intros H. split; [exact fwf_init|split; [constructor|exact H]]. Qed.
 End ReplyProofs.
+
+(* ---------- the hypotheses on the units are satisfiable: a constant toy USD ---------- *)
+
+Definition kind_of (code : Z) : rkind :=
+  match code with
+  | 16 => KVersion | 18 => KPosition | 19 => KStatus | 20 => KType
+  | 32 | 33 | 48 | 49 | 50 | 53 => KBool
+  | _ => KAck
+  end.
+
+Lemma decode_kind code ps c k : decode code ps = DCall c k -> c_code c = code /\ k = kind_of code.
+Proof.
+  unfold decode. intros Hd.
+  repeat match type of Hd with
+  | context [match ?x with _ => _ end] => destruct x
+  end; try discriminate; injection Hd as <- <-; split; reflexivity.
+Qed.
+
+Definition toy_sem (u : Z) (c : ucall) : Z * uret :=
+  (u, match c_code c with
+      | 16 => RList [1; 3] | 18 => RInt u | 19 => RStr [0; 24; 24] | 20 => RInt 32
+      | _ => RBool true
+      end).
+Definition toy_inv (u : Z) : Prop := -2688000 <= u <= 2688000.
+
+Example toy_usd_ok : usd_ok toy_sem toy_inv /\ inv_kept toy_sem toy_inv /\
+  getters_pure toy_sem [0; 5; -7].
+Proof.
+  split; [|split].
+  - intros u code ps c k Hu Hd. destruct (decode_kind code ps c k Hd) as [Hc ->].
+    unfold toy_sem. cbn [snd]. rewrite Hc. unfold toy_inv in Hu.
+    unfold kind_of.
+    repeat match goal with
+    | |- context [match ?x with _ => _ end] => destruct x
+    end; cbn [ret_ok]; auto;
+    first [ solve [exists [1; 3]; split; [reflexivity|cbn; lia]]
+          | solve [exists u; split; [reflexivity|lia]]
+          | solve [exists [0; 24; 24]; split; [reflexivity|split; [|reflexivity]];
+                   repeat constructor; unfold byte; lia]
+          | solve [exists 32; split; [reflexivity|lia]] ].
+  - intros u c Hu. exact Hu.
+  - intros u c _ _. reflexivity.
+Qed.
